@@ -269,6 +269,13 @@ public:
         return "";
     }
 
+    // the three documented overloads of the position setters (const reference, rvalue, raw array)
+    static void setPositions(ParticleSwarmState &s, std::vector<double> pos, uint64_t which) {
+        if (which % 3 == 0) s.setParticlePositions(pos); else if (which % 3 == 1) s.setParticlePositions(std::move(pos)); else s.setParticlePositions(pos.data());
+    }
+    static void setBests(ParticleSwarmState &s, std::vector<double> b, uint64_t which) {
+        if (which % 3 == 0) s.setBestParticlePositions(b); else if (which % 3 == 1) s.setBestParticlePositions(std::move(b)); else s.setBestParticlePositions(b.data());
+    }
     void applyEdit(Swarm &S, const std::string &edit, uint64_t seed, Stats &st) {
         Env &e = S.env; size_t np = e.np, d = e.d;
         Rng r(seed);
@@ -283,16 +290,16 @@ public:
         else if (edit == "clearBest+clearCache") { S.s->clearBestParticles(); S.s->clearCache(); clearBestModel(false); }
         else if (edit == "setPositions+clearCache") {
             std::vector<double> pos(np * d); for (auto &v : pos) v = r.uniform(-1.5, 1.5);
-            S.s->setParticlePositions(pos); S.s->clearCache();
+            setPositions(*S.s, pos, seed >> 7); S.s->clearCache();
         } else if (edit == "setPositions") { // same objective, so the documentation does not ask for clearCache()
             std::vector<double> pos(np * d); for (auto &v : pos) v = r.uniform(-1.5, 1.5);
-            S.s->setParticlePositions(pos);
+            setPositions(*S.s, pos, seed >> 7);
         } else if (edit == "setBest+clearCache" || edit == "setBest") {
             std::vector<double> b(( np + 1) * d); for (auto &v : b) v = r.uniform(-1.5, 1.5);
             // keep the manual input self-consistent: the swarm strip is the best in-domain personal best (if any)
             { int arg = -1; double mn = 0; for (size_t i = 0; i < np; i++) if (e.dom(&b[i * d])) { double f = e.obj(&b[i * d]); if (arg < 0 || f < mn) { arg = (int)i; mn = f; } }
               if (arg >= 0) std::copy_n(b.begin() + arg * d, d, b.begin() + np * d); }
-            S.s->setBestParticlePositions(b); if (edit == "setBest+clearCache") S.s->clearCache();
+            setBests(*S.s, b, seed >> 9); if (edit == "setBest+clearCache") S.s->clearCache();
             S.bests_manual = true;
             for (auto &v : S.visited) v.clear(); // the user replaced every best: the record restarts from what gets evaluated
         } else if (edit == "setVelocities") {
